@@ -78,7 +78,7 @@ fn kv_final_stage_body<const NCH: usize, const LEN: usize>(buffer: usize) {
 	std::mem::forget(r); std::mem::forget(c);
 }
 
-// @h prop=C01,C02,C11 tier=quick kind=main timeout=280
+// @h prop=C01,C02,C11 tier=quick kind=main timeout=600
 // @bounds real Renderer::process, 2 output channels, internal buffer 2, device callback of 3 frames (a full chunk and a remainder chunk); arbitrary non-NaN f32 bus samples (incl. +-inf, denormals, out of range)
 // @funcs Renderer::{new,on_start_processing,process,process_chunk}, Mixer::{on_start_processing,process}, MainTrack::{on_start_processing,process}, ResourceStorage::remove_and_add
 // @catches clamp dropped or applied to one channel only; remainder chunk rendered with the full buffer length (sound advanced past frames never output) or indexed with the full size; bus not cleared; frames written out of order
@@ -86,7 +86,7 @@ fn kv_final_stage_body<const NCH: usize, const LEN: usize>(buffer: usize) {
 #[kani::unwind(5)]
 fn c01_renderer_final_stage_stereo() { kv_final_stage_body::<2, 6>(2); }
 
-// @h prop=C01 tier=quick kind=main timeout=280
+// @h prop=C01 tier=quick kind=main timeout=600
 // @bounds ONE output channel (mono fold-down), buffer 2, callback 3 frames; bus samples on the grid k/64, |k| <= 128 (range [-2,2], so clamping is exercised)
 // @funcs Renderer::process_chunk
 // @catches mono fold-down before the clamp, or summing without halving
@@ -94,7 +94,7 @@ fn c01_renderer_final_stage_stereo() { kv_final_stage_body::<2, 6>(2); }
 #[kani::unwind(5)]
 fn c01_renderer_final_stage_mono() { kv_final_stage_body::<1, 3>(2); }
 
-// @h prop=C01 tier=quick kind=main timeout=280
+// @h prop=C01 tier=quick kind=main timeout=600
 // @bounds as above with 4 output channels, buffer 2, callback 3 frames
 // @funcs Renderer::process_chunk
 // @catches channels beyond the second left unwritten (device garbage) or `skip(2)` off by one
@@ -127,7 +127,7 @@ fn kv_clock_advance_body(frames: usize) {
 	std::mem::forget(r); std::mem::forget(c);
 }
 
-// @h prop=C05,C11 tier=quick kind=main timeout=280
+// @h prop=C05,C11 tier=quick kind=main timeout=600
 // @bounds real Renderer with one real Clock (speed 2 or 4 ticks/s, running) at 4 Hz, internal buffer 2; device callback of 3 frames (a full chunk plus a remainder chunk)
 // @funcs Renderer::{process,process_chunk}, Clocks::update, SelfReferentialResourceStorage::for_each, Clock::update
 // @catches a chunk's elapsed time taken from the configured buffer size instead of the frames actually in it (clocks run fast on remainder chunks); clocks updated twice or not at all per chunk
@@ -135,14 +135,14 @@ fn kv_clock_advance_body(frames: usize) {
 #[kani::unwind(40)]
 fn c05_renderer_clock_advance_remainder_chunk() { kv_clock_advance_body(3); }
 
-// @h prop=C05,C11 tier=quick kind=main timeout=280
+// @h prop=C05,C11 tier=quick kind=main timeout=600
 // @bounds as above with a device callback of 1 frame (smaller than the internal buffer)
 // @funcs Renderer::{process,process_chunk}, Clocks::update, Clock::update
 #[kani::proof]
 #[kani::unwind(40)]
 fn c05_renderer_clock_advance_short_callback() { kv_clock_advance_body(1); }
 
-// @h prop=C16 tier=quick kind=main timeout=280
+// @h prop=C16 tier=quick kind=main timeout=600
 // @bounds Renderer::on_change_sample_rate to 1, 8000, 44100, 48000, 96000 or 192000 Hz (symbolic choice): dt becomes exactly 1/rate, the shared atomic (read by the gameplay thread when it initialises new tracks) holds the new rate
 // @funcs Renderer::{new,on_change_sample_rate}, Mixer::on_change_sample_rate
 // @catches dt left at the old rate (seconds and hertz then mean something else), or the shared rate not updated (tracks created later are initialised with the old rate)
